@@ -94,7 +94,7 @@ def make_registry(skip_mode=False):
         if c not in INLINE_AT_CALL_SITES:
             reg.add_contract(c)
     for q in ("_serialize_value", "_get_group", "_get_array", "_is_autoserialize_instance", "_fix_torch_module_sets",
-              "_convert_string_to_path_if_needed", "_is_numeric_scalar"):
+              "_convert_string_to_path_if_needed", "_is_numeric_scalar", "_restore_numpy_rng"):
         reg.inline.add(f"{AS}.{q}")
     # repository functions are never executed natively (they would touch the REAL file system instead of the ghost one):
     # a callee without contract / inline permission is interpreted in place by the engine
@@ -584,6 +584,18 @@ def wnd_ensures(s):
            (f"[{s.case}]no-group-attribute-written", B(len(G.attrs) == 0)),
            (f"[{s.case}]dtype-stored", B(len(G.arrays) == 1 and cm.dtype_same(G.arrays.values()[0].dtype, s.array.payload["dtype"]))),
            (f"[{s.case}]compressors-passed-to-create_array", B(len(G.arrays) == 1 and G.arrays.values()[0].compressors is s.compressors))]
+    if len(G.arrays) == 1:
+        # the protocol of the reader/writer pair: the shape the reader rebuilds is the entry's own shape, or '_original_shape' when that is present
+        st = G.arrays.values()[0]
+        want = tuple(s.array.payload["shape"])
+        osh = st.attrs.m.get("_original_shape") if "_original_shape" in st.attrs.m.keys() else None
+        if osh is not None:
+            ok = cm.shape_eq_term(tuple(osh), want) if isinstance(osh, (list, tuple)) else z3.BoolVal(False)
+        else:
+            ok = cm.shape_eq_term(tuple(st.shape), want)
+        out.append((f"[{s.case}]stored-shape(or-_original_shape-when-present)-is-the-array's-shape:ndim-and-every-axis", ok))
+        out.append((f"[{s.case}]a-non-empty-array's-contents-are-stored",
+                    z3.Or(cm.shape_numel_zero_term(want), B(st.data is not None and cm.data_norm(st.data) == cm.data_norm(s.array.payload["data"])))))
     return out
 
 
@@ -946,7 +958,14 @@ def dcont_requires(s):
     ok = e is not None and e.kind == "container"
     tag = G.attrs.m.get("_container_type") if ok else None
     tag_ok = ok and (tag == type(e.value).__name__ or (tag == "set" and isinstance(e.value, list)))
-    return [("group-was-written-by-_serialize_container", B(ok)), ("container-tag-is-the-writer's-(or-'set'-on-the-element-list-of-a-set)", B(tag_ok))]
+    out = [("group-was-written-by-_serialize_container", B(ok)), ("container-tag-is-the-writer's-(or-'set'-on-the-element-list-of-a-set)", B(tag_ok))]
+    sn = getattr(s, "skip_names", None)
+    if sn is not None:
+        # the reader's postcondition (every key / element comes back) is established for a call WITHOUT skip lists; 'remaining attributes load exactly as
+        # without skipping' (C14): a container attribute that is not itself skipped must be decoded independently of the load-time skip names
+        ok_names = names_equiv(sn, frozenset(), s.ctx) if isinstance(sn, (SymSet, set, frozenset, list, tuple)) else z3.BoolVal(False)
+        out.append(("no-load-time-skip-names-reach-a-container:a-dict/list-attribute-that-is-not-skipped-keeps-all-its-keys/elements", ok_names))
+    return out
 
 
 def dcont_result(ctx, s):
@@ -1015,6 +1034,8 @@ def rload_setup(ctx, part=(0, 1)):
             lnames = lnames | set(names)
     else:
         lnames = frozenset()
+    # call-site clause of the recursion: the callee of THIS call must be handed this call's own load-time skip lists (see rload_requires)
+    ctx.ghost["rload_caller"] = NS(names=lnames, types=())
     return NS(cls=Box, group=G, skip_names=lnames, skip_types=(), orig=obj, case=case,
               exp=NS(save_names=names, save_types=types, load_names=lnames, load_types=(), ctx=ctx))
 
@@ -1040,8 +1061,16 @@ def rload_requires(s):
     cls_ok = ok and isinstance(e.value, Obj) and e.value.cls is s.cls
     keys = [k for k in G.attrs.m.keys()] if isinstance(G, AGroup) else []
     extra = [k for k in keys if not (isinstance(k, str) and k in ("_autoserialize", "_autoserialize_skip_names", "_autoserialize_skip_types"))]
-    return [("group-was-written-by-_recursive_save", B(ok)), ("class-resolved-from-the-stored-identity-is-the-object's-class", B(cls_ok)),
-            ("nothing-else-was-written-into-the-group-(except-save's-skip-lists-in-a-root)", B(not extra and len(G.arrays) == 0 and len(G.groups) == 0))]
+    out = [("group-was-written-by-_recursive_save", B(ok)), ("class-resolved-from-the-stored-identity-is-the-object's-class", B(cls_ok)),
+           ("nothing-else-was-written-into-the-group-(except-save's-skip-lists-in-a-root)", B(not extra and len(G.arrays) == 0 and len(G.groups) == 0))]
+    caller = s.ctx.ghost.get("rload_caller")
+    if caller is not None:
+        # the recursive call inside _recursive_load (attribute-nested object): 'skipped at every level' needs the callee to get the caller's OWN sets
+        sn, stp = s.skip_names, s.skip_types
+        names_ok = names_equiv(sn, caller.names, s.ctx) if isinstance(sn, (SymSet, set, frozenset, list)) else z3.BoolVal(False)
+        out.append(("callee-receives-the-caller's-own-load-time-skip-names(not-a-narrowed/widened-set)", names_ok))
+        out.append(("callee-receives-the-caller's-own-load-time-skip-types", B(types_equiv(stp, caller.types))))
+    return out
 
 
 def rload_result(ctx, s):
@@ -1306,9 +1335,280 @@ def load_ensures(s):
 
 C_LOAD = Contract(f"{SER}:load", setup=load_setup, ensures=load_ensures)
 
+
+# ------------------------------------------------------------------------------------------------
+# small helpers of the serializer (quantem code): verified on their own; callers keep interpreting the real bodies
+# ------------------------------------------------------------------------------------------------
+
+# ---- _serialize_value at leaf / container kinds: the storage class and tag under which each kind is written (dispatch order)
+
+DISPATCH_CASES = LEAF_CASES + EXTRA_CASES + CONTAINER_CASES + ["npcomplex"]
+# kind -> (storage, detail): what the load-side chains recognise for that kind
+_TORCH_TAGS = {"tensor": ("_torch_tensor", "tensor"), "tensor_grad": ("_torch_tensor", "tensor"), "tensor_nonleaf": ("_torch_tensor", "tensor"),
+               "parameter": ("_torch_tensor", "tensor"), "module": ("_torch_whole_module", "module"), "optimizer": ("_torch_optimizer", "optimizer"),
+               "scheduler": ("_torch_scheduler", "scheduler")}
+_ALL_TAGS = ["_torch_tensor", "_torch_optimizer", "_torch_scheduler", "_torch_logger", "_python_logger", "_torch_whole_module", "_autoserialize", "_container_type",
+             "_numpy_rng", "_torch_rng_skipped"]
+
+
+def dispatch_setup(ctx, part=(0, 1)):
+    case = pick(ctx, "value_kind", sub(DISPATCH_CASES, part))
+    v = mk_value(ctx, case)
+    names, types = skip_ctx(ctx)
+    name = fresh_name(ctx, "name", Box)
+    return NS(self=mk_obj(Box, []), value=v, group=AGroup(), name=name, skip_names=names, skip_types=types, compressors=COMP, case=case)
+
+
+def dispatch_ensures(s):
+    if s.mode != "verify":
+        return []
+    G, name, v, case = s.group, s.name, s.value, s.case
+    c = f"[{case}]"
+    flag = lambda k: (is_strsym(k) and sterm(k).eq(z3.Concat(sterm(name), SV(".is_path")))) or (isinstance(k, str) and isinstance(name, str) and k == name + ".is_path")
+    out = [(c + "exactly-one-entry-under-name(attribute/array/sub-group)", B(entry_count(G, name) == 1)),
+           (c + "frame:nothing-written-but-name-and-its-path-flag", B(all(key_same(k, name) or flag(k) for _, k in G.log)))]
+    at = next((x for k, x in G.attrs.m.items() if key_same(k, name)), None)
+    has_at = any(key_same(k, name) for k in G.attrs.m.keys())
+    arr = next((a for k, a in G.arrays.items() if key_same(k, name)), None)
+    grp = next((g for k, g in G.groups.items() if key_same(k, name)), None)
+    flags = [x for k, x in G.attrs.m.items() if flag(k)]
+    tags = [t for t in _ALL_TAGS if grp is not None and t in grp.attrs.m.keys()]
+    if case in ("none", "bool", "int", "float", "str", "npint", "npfloat", "npbool"):
+        out.append((c + "scalar-stored-as-a-JSON-attribute", B(has_at and arr is None and grp is None and not flags)))
+        if has_at:
+            if case == "none":
+                out.append((c + "attribute-value", B(at is None)))
+            else:
+                want = v.payload["v"] if isinstance(v, Kind) else v
+                ok = isinstance(at, Sym) and sym_pytype(at) == sym_pytype(want)
+                out.append((c + "attribute-python-type", B(ok)))
+                if ok:
+                    out.append((c + "attribute-value", at.t == want.t))
+    elif case == "path":
+        out.append((c + "path-stored-as-str-attribute-plus-is_path-flag", B(has_at and is_strsym(at) and flags == [True] and arr is None and grp is None)))
+        if has_at and is_strsym(at):
+            out.append((c + "attribute-value-is-str(path)", sterm(at) == sterm(v.payload["p"])))
+    elif case.startswith("ndarray") or case == "npcomplex":
+        out.append((c + "stored-as-a-native-array-through-_write_ndarray", B(arr is not None and arr.src is not None and not has_at and grp is None)))
+        if arr is not None and arr.src is not None:
+            if case == "npcomplex":
+                out.append((c + "array-is-the-0-d-array-of-the-scalar", B(arr.src.payload["shape"] == () and cm.data_norm(arr.src.payload["data"]) == ("np0", id(v)))))
+            else:
+                out.append((c + "array-written-is-the-value", B(arr.src is v)))
+            out.append((c + "compressors-reach-the-array-writer", B(arr.compressors is s.compressors)))
+    elif case in _TORCH_TAGS:
+        tag, key = _TORCH_TAGS[case]
+        out.append((c + f"pickled-whole-into-a-sub-group-tagged-{tag}", B(grp is not None and tags == [tag] and grp.attrs.m.get(tag) is True and not has_at and arr is None)))
+        if grp is not None:
+            a = grp.arrays.get(key)
+            out.append((c + f"one-byte-array-named-{key}", B(a is not None and len(grp.arrays) == 1 and len(grp.groups) == 0 and isinstance(a.src, ABytes))))
+            if a is not None and isinstance(a.src, ABytes):
+                out.append((c + "bytes-are-torch.save-of-the-value", B(isinstance(a.src.tok, tuple) and len(a.src.tok) == 2 and a.src.tok[0] == "torch" and a.src.tok[1] is v)))
+                out.append((c + "pickle-bytes-stored-uncompressed", B(a.compressors is None)))
+            if tag == "_torch_tensor":
+                out.append((c + "requires_grad-recorded", B(grp.attrs.m.get("_tensor_requires_grad") is (case != "tensor"))))
+    elif case in ("pylogger", "tlogger"):
+        tag = "_python_logger" if case == "pylogger" else "_torch_logger"
+        out.append((c + f"metadata-only-sub-group-tagged-{tag}", B(grp is not None and tags == [tag] and len(grp.arrays) == 0 and len(grp.groups) == 0 and not has_at and arr is None)))
+        if grp is not None:
+            out.append((c + "class_name-recorded", B(grp.attrs.m.get("class_name") == type(v.payload["rep"]).__name__)))
+    elif case.startswith("rng:"):
+        out.append((c + "sub-group-tagged-_numpy_rng", B(grp is not None and tags == ["_numpy_rng"] and len(grp.arrays) == 0 and not has_at and arr is None)))
+        if grp is not None:
+            out.append((c + "bit-generator-type-recorded", B(grp.attrs.m.get("_bit_generator_type") == case[4:])))
+    elif case in CONTAINER_CASES:
+        e = grp.enc if grp is not None else None
+        out.append((c + "container-written-by-_serialize_container-into-a-sub-group", B(e is not None and e.kind == "container" and not has_at and arr is None)))
+        if e is not None:
+            is_set = isinstance(v, (set, frozenset))
+            out.append((c + "container-writer-got-the-value(the-element-list-of-a-set)", B(e.value is v if not is_set else (isinstance(e.value, list) and len(e.value) == len(v) and all(any(x is y for y in v) for x in e.value)))))
+            out.append((c + "container-tag", B(grp.attrs.m.get("_container_type") == type(v).__name__)))
+            out.append((c + "container-writer-got-skip_names", B(e.names is s.skip_names)))
+            out.append((c + "container-writer-got-skip_types", B(e.types is s.skip_types)))
+            out.append((c + "container-writer-got-compressors", B(e.compressors is s.compressors)))
+    elif case == "other":
+        out.append((c + "fallback:gzip(dill)-bytes-as-an-array", B(arr is not None and isinstance(arr.src, ABytes) and not has_at and grp is None)))
+    else:
+        out.append((c + "case-has-a-dispatch-clause", B(False)))
+    return out
+
+
+N_DISPATCH = 2
+C_DISPATCH = [Contract(f"{AS}._serialize_value", setup=functools.partial(dispatch_setup, part=(i, N_DISPATCH)), ensures=dispatch_ensures) for i in range(N_DISPATCH)]
+
+# ---- _convert_string_to_path_if_needed
+
+CONV_CASES = ["str+flag", "str", "str+flag-of-another-key", "str+flag=False", "int+flag", "none+flag", "float", "bool", "list+flag", "dict"]
+
+
+def conv_setup(ctx):
+    case = pick(ctx, "case", CONV_CASES)
+    key = fresh_name(ctx, "key", distinct_from=["zz_other"])
+    G = AGroup()
+    kind = case.split("+")[0]
+    val = {"str": lambda: StrSym(z3.String(ctx.fresh_name("val"))), "int": lambda: ctx.fresh("val_i", "int"), "none": lambda: None,
+           "float": lambda: ctx.fresh("val_f", "real"), "bool": lambda: ctx.fresh("val_b", "bool"),
+           "list": lambda: [StrSym(z3.String(ctx.fresh_name("val_e")))], "dict": lambda: {"k": 1}}[kind]()
+    G.attrs[key] = val
+    G.attrs["zz_other"] = "p"
+    if case.endswith("+flag"):
+        G.attrs[key + ".is_path"] = True
+    if case.endswith("+flag=False"):
+        G.attrs[key + ".is_path"] = False
+    if case.endswith("flag-of-another-key"):
+        G.attrs["zz_other.is_path"] = True
+    del G.log[:]
+    return NS(val=val, group=G, key=key, case=case, n_attrs=len(G.attrs))
+
+
+def conv_ensures(s):
+    if s.mode != "verify":
+        return []
+    c = f"[{s.case}]"
+    r = s.result
+    out = [(c + "frame:group-not-written", B(not s.group.log and len(s.group.attrs) == s.n_attrs and len(s.group.arrays) == 0 and len(s.group.groups) == 0))]
+    if s.case == "str+flag":
+        ok = isinstance(r, Kind) and r.kind == "path"
+        out.append((c + "flagged-string-comes-back-as-a-Path", B(ok)))
+        if ok:
+            out.append((c + "path-text-is-the-stored-string", sterm(r.payload["p"]) == sterm(s.val)))
+    else:
+        out.append((c + "anything-else-is-returned-unchanged", B(r is s.val)))
+    return out
+
+
+C_CONV = Contract(f"{AS}._convert_string_to_path_if_needed", setup=conv_setup, ensures=conv_ensures)
+
+# ---- _get_group / _get_array
+
+GET_CASES = ["group", "array", "absent"]
+
+
+def get_setup(ctx):
+    case = pick(ctx, "case", GET_CASES)
+    key = fresh_name(ctx, "key", distinct_from=["zz_other"])
+    P = AGroup()
+    P.require_group("zz_other")
+    node = None
+    if case == "group":
+        node = P.require_group(key)
+    elif case == "array":
+        node = P.create_array(name=key, shape=(2,), dtype="uint8", compressors=None)
+    del P.log[:]
+    return NS(parent=P, key=key, case=case, node=node)
+
+
+def get_ensures(s):
+    if s.mode != "verify":
+        return []
+    c = f"[{s.case}]"
+    return [(c + "result-is-the-node-stored-under-key", B(s.result is s.node and s.node is not None)),
+            (c + "frame:parent-not-written", B(not s.parent.log and len(s.parent.groups) + len(s.parent.arrays) == (1 if s.case == "absent" else 2)))]
+
+
+C_GETGROUP = Contract(f"{AS}._get_group", setup=get_setup, ensures=get_ensures, raises={KeyError: lambda s: z3.BoolVal(s.case == "absent")})
+C_GETARRAY = Contract(f"{AS}._get_array", setup=get_setup, ensures=get_ensures, raises={KeyError: lambda s: z3.BoolVal(s.case == "absent")})
+
+# ---- _fix_torch_module_sets
+
+FIX_TREE_CASES = ["real-module-tree:child-with-non-persistent-buffer", "real-module-tree:root-set-came-back-as-a-list"]
+FIX_CASES = FIX_TREE_CASES + ["module", "tensor", "parameter", "none", "int", "str", "ndarray1", "obj", "obj:module", "obj:module+list-valued-set-attribute", "obj:module+set-valued-set-attribute", "list:str", "dict"]
+
+
+def _module_tree(case):
+    """a REAL torch module tree (concrete representative): root with a non-persistent buffer, child with one persistent and one non-persistent buffer"""
+    root, child = _torch.nn.Module(), _torch.nn.Module()
+    root.register_buffer("rb", _torch.zeros(1), persistent=False)
+    root.register_buffer("rp", _torch.zeros(1))
+    child.register_buffer("cb", _torch.ones(1), persistent=False)
+    child.register_buffer("cp", _torch.ones(1))
+    root.add_module("child", child)
+    if "came-back-as-a-list" in case:
+        root._non_persistent_buffers_set = ["rb"]
+    return root
+
+
+def _tree_state(root):
+    return ({n: set(m._non_persistent_buffers_set) for n, m in root.named_modules()}, list(root.state_dict().keys()),
+            {n: sorted(m._buffers) for n, m in root.named_modules()})
+
+
+def fix_setup(ctx):
+    case = pick(ctx, "case", FIX_CASES)
+    if case in FIX_TREE_CASES:
+        root = _module_tree(case)
+        return NS(mod=root, case=case, coll=None, elems=None, c=None, tree=_tree_state(root))
+    if case.startswith("obj:module+"):
+        elems = ["b1", "b2"]
+        coll = list(elems) if "list-valued" in case else set(elems)
+        m = mk_obj(NNInner, [("c", ctx.fresh("c", "int")), ("_non_persistent_buffers_set", coll)])
+        return NS(mod=m, case=case, coll=coll, elems=elems, c=m.fields["c"])
+    return NS(mod=mk_value(ctx, case), case=case, coll=None, elems=None, c=None)
+
+
+def fix_ensures(s):
+    if s.mode != "verify":
+        return []
+    c = f"[{s.case}]"
+    out = [(c + "returns-its-argument", B(s.result is s.mod))]
+    if s.case in FIX_TREE_CASES:
+        np_sets, sd_keys, bufs = s.tree
+        now = _tree_state(s.mod)
+        out.append((c + "non-persistent-buffer-set-of-every-submodule-preserved", B(now[0] == np_sets)))
+        out.append((c + "every-_non_persistent_buffers_set-is-a-set", B(all(isinstance(m._non_persistent_buffers_set, set) for m in s.mod.modules()))))
+        out.append((c + "state_dict-key-set-preserved", B(now[1] == sd_keys)))
+        out.append((c + "frame:registered-buffers-of-every-submodule-unchanged", B(now[2] == bufs)))
+        return out
+    if isinstance(s.mod, Obj):
+        keys = [k for k in s.mod.fields.keys()]
+        if s.coll is not None:
+            now = s.mod.fields["_non_persistent_buffers_set"]
+            out.append((c + "_non_persistent_buffers_set-is-a-set-with-the-same-elements", B(isinstance(now, set) and now == set(s.elems))))
+            if isinstance(s.coll, set):
+                out.append((c + "an-attribute-that-already-is-a-set-is-left-alone", B(now is s.coll)))
+            out.append((c + "frame:other-attributes-untouched", B(keys == ["c", "_non_persistent_buffers_set"] and s.mod.fields["c"] is s.c)))
+        else:
+            out.append((c + "frame:no-attribute-added-or-removed", B(len(keys) == (0 if s.case == "obj:empty" else 1))))
+    return out
+
+
+C_FIXSETS = Contract(f"{AS}._fix_torch_module_sets", setup=fix_setup, ensures=fix_ensures)
+
+# ---- _restore_numpy_rng
+
+RNG_CASES = ["PCG64", "MT19937", "Philox", "SFC64", "<missing>", "Bogus"]
+
+
+def rng_setup(ctx):
+    case = pick(ctx, "case", RNG_CASES)
+    G = AGroup()
+    G.attrs["_numpy_rng"] = True
+    if case != "<missing>":
+        G.attrs["_bit_generator_type"] = case
+    del G.log[:]
+    return NS(subgrp=G, case=case)
+
+
+def rng_ensures(s):
+    if s.mode != "verify":
+        return []
+    import numpy as np
+
+    c = f"[{s.case}]"
+    want = s.case if s.case in ("PCG64", "MT19937", "Philox", "SFC64") else "PCG64"
+    r = s.result
+    return [(c + "result-is-a-numpy-Generator", B(isinstance(r, np.random.Generator))),
+            (c + "bit-generator-is-of-the-recorded-type(PCG64-when-unknown/missing)", B(isinstance(r, np.random.Generator) and type(r.bit_generator).__name__ == want)),
+            (c + "frame:group-not-written", B(not s.subgrp.log))]
+
+
+C_RNG = Contract(f"{AS}._restore_numpy_rng", setup=rng_setup, ensures=rng_ensures)
+
+C_HELPERS = C_DISPATCH + [C_CONV, C_GETGROUP, C_GETARRAY, C_FIXSETS, C_RNG]
+
 # heavy ones first (the pool hands tasks out in order)
-CONTRACTS = C_SVALS + C_RLOADS + C_DCONTS + C_SCONTS + C_RSAVES + C_SAVES + [C_LOAD, C_WND, C_WBYTES, C_A2NP, C_READ, C_ISNUM, C_ISAUTO]
-INLINE_AT_CALL_SITES = C_SVALS + [C_ISAUTO]  # verified on its own, but its callers keep interpreting the real body (more precise than a contract)
+CONTRACTS = C_SVALS + C_RLOADS + C_DCONTS + C_SCONTS + C_RSAVES + C_SAVES + [C_LOAD, C_WND, C_WBYTES, C_A2NP, C_READ, C_ISNUM, C_ISAUTO] + C_HELPERS
+INLINE_AT_CALL_SITES = C_SVALS + [C_ISAUTO] + C_HELPERS  # verified on its own, but its callers keep interpreting the real body (more precise than a contract)
 LEMMAS = []
 BOUNDED = []
 TRUSTED = []
@@ -1470,6 +1770,8 @@ def concrete(desc, dims=None):
         return torch.zeros((0, 2))
     if leaf == "parameter":
         return torch.nn.Parameter(torch.ones(2) * (i + 1))
+    if leaf == "module_tree":
+        return _module_tree("real-module-tree:child-with-non-persistent-buffer")
     if leaf in ("module", "optimizer", "scheduler"):
         return fx[leaf]
     if leaf == "other":
@@ -1575,6 +1877,8 @@ def equiv_rt(l, o, path, out):
             so, sl = o.state_dict(), l.state_dict()
             if list(so) != list(sl) or any(not torch.equal(so[k], sl[k]) for k in so):
                 bad("module", "state_dict differs")
+            elif {n: set(m._non_persistent_buffers_set) for n, m in o.named_modules()} != {n: set(m._non_persistent_buffers_set) for n, m in l.named_modules()}:
+                bad("module", "non-persistent buffer sets of the submodules differ")
         return
     if isinstance(o, torch.optim.Optimizer) or (hasattr(o, "step") and hasattr(o, "get_last_lr")):
         if type(l) is not type(o) or repr(l.state_dict()) != repr(o.state_dict()):
@@ -2071,7 +2375,7 @@ for _c in C_RSAVES + C_RLOADS + C_SCONTS + C_DCONTS + C_SVALS:
 
 G_LEAVES = ["none", "bool", "int", "negint", "bigint", "float", "str", "emptystr", "unistr", "path", "relpath", "tildepath", "tildeonly", "tildeuser", "midtilde", "dotdotpath", "npint", "npint8", "npuint16", "npfloat",
             "npfloat64", "npfloat16", "npbool", "ndarray0", "ndarray1", "ndarray2", "ndarray3", "tensor", "tensor_grad", "tensor_nonleaf", "tensor_int", "tensor0",
-            "tensor_empty", "parameter", "module", "pylogger", "tlogger", "rng:PCG64", "obj", "obj:empty", "obj:foreign", "inner(c=int,d=ndarray1)"]
+            "tensor_empty", "parameter", "module", "module_tree", "pylogger", "tlogger", "rng:PCG64", "obj", "obj:empty", "obj:foreign", "inner(c=int,d=ndarray1)"]
 G_EXTRA = ["optimizer", "scheduler", "other", "pycomplex"]
 G_KNOWN_BAD_SAVE = ["npcomplex", "rng:MT19937", "rng:Philox", "rng:SFC64"]
 G_PAIR = ["int", "str", "none", "path", "npfloat", "ndarray1", "tensor", "obj", "list(int,str)"]
@@ -2312,7 +2616,9 @@ TRUSTED = [
     "arrays keep dtype/shape/data; compressors lossless (recorded, otherwise ignored); create_array on an existing key raises; 0-d arrays read with arr[()]",
     "A6 torch.save/torch.load, dill.dumps/loads, gzip.compress/decompress are inverse pairs on opaque byte tokens (tensor dtype, requires_grad, module/optimizer state ride on that); "
     "bytes of a user array are not a gzip stream of a dill pickle",
-    "A6 numpy: asarray of numeric scalars holds the same numeric values (A1/A2), frombuffer/tobytes inverse, empty() has unspecified contents; pathlib.Path(str(p)) == p",
+    "A6 numpy: asarray of numeric scalars holds the same numeric values (A1/A2), frombuffer/tobytes inverse, empty() has unspecified contents; pathlib.Path(str(p)) == p; "
+    "ascontiguousarray / asfortranarray / atleast_1d return ndim >= 1 (a 0-d input comes back with shape (1,), same dtype and element); Path(non-str) raises TypeError; "
+    "str(bool) is 'True'/'False', str(int) the decimal numeral; name sets: & | - are the boolean combinations of the membership predicates",
     "A6 ghost file system at whole-tree granularity: os.walk + ZipFile.write(arcname=relpath) archives the directory tree, extractall restores it, "
     "TemporaryDirectory is removed on exit, LocalStore/zarr.group bind a tree to a directory",
     "A7 kind facts: isinstance/hasattr of a kind are measured on one real representative (torch.ones(2), Linear(1,1), SGD, StepLR, SummaryWriter, logging.Logger, "
@@ -2327,13 +2633,16 @@ ASSUMPTIONS = [
     "_autoserialize_skip_names/_types), not ending in '.is_path' / '.torch_save' (flag names - a dict key 'x.is_path' IS silently dropped by the real loader), "
     "not dunder names and not names of class-level attributes (load(skip=['save']) raises AttributeError in the real code); names of one object pairwise distinct",
     "classes are importable module-level classes (class identity is stored as module + qualname; a nested class cannot be re-imported), plain (non-attrs) classes",
-    "container width unrolled <= 3 (deductive part); depth by induction through the recursive contracts; ndarray ndim <= 3 with symbolic dimensions",
+    "container width unrolled <= 3 (deductive part; plus 11/12-element sequences) - NOT replaced by a loop contract at an arbitrary element: the abstract zarr group is a finite key->entry "
+    "association list with syntactic key matching and container values are python lists of kind-abstract elements, so a symbolic-length heterogeneous container has no representation yet; "
+    "depth by induction through the recursive contracts; ndarray ndim <= 3 with symbolic dimensions",
     "kinds outside the property's list (optimizer, scheduler, dill fallback) are verified at attribute position only; inside containers the real loader returns the raw byte array for dill values",
     "load-time skipping by TYPE is not specified by the property; the contracts take the load-time type tuple to be the persisted one",
     "objects inside containers are outside C14's claim (load-time names are not forwarded to them by the real code)",
 ]
 EXPLANATION = ("VCs generated at check time from the real source of AutoSerialize.save/_recursive_save/_serialize_value/_serialize_container/_write_ndarray/_write_bytes/"
-               "_array_to_np/_read_array_np/_convert_string_to_path_if_needed/_is_numeric_scalar/_recursive_load/_deserialize_container and module-level load, "
+               "_array_to_np/_read_array_np/_convert_string_to_path_if_needed/_is_numeric_scalar/_is_autoserialize_instance/_get_group/_get_array/_fix_torch_module_sets/"
+               "_restore_numpy_rng/_recursive_load/_deserialize_container and module-level load, "
                "executed symbolically over an abstract zarr group with kind-abstract values and symbolic names; every reader is verified on the state the real writer produced; "
                "meta-level clauses are decided by path enumeration (backend 'simplify'), name/shape/set clauses by z3")
 
@@ -2458,7 +2767,7 @@ def conc_load(ev):
 
 
 INLINED = [f"{AS}.{q}" for q in ("_serialize_value", "_get_group", "_get_array", "_is_autoserialize_instance", "_fix_torch_module_sets",
-                                  "_convert_string_to_path_if_needed")]
+                                  "_convert_string_to_path_if_needed", "_restore_numpy_rng")]
 for _c in CONTRACTS:
     _c.inline = set(INLINED)  # listed in evidence: these bodies are interpreted at their call sites
     _c.canary_path_limit = 16  # vacuity canary: the first 16 paths (of up to several hundred) are re-run with falsified postconditions
@@ -2488,3 +2797,142 @@ def conc_isauto(ev):
 C_ISAUTO.concretize, C_ISAUTO.rt = conc_isauto, rt_isauto
 C_ISAUTO.canary_path_limit = 16
 C_ISAUTO.inline = set(INLINED)
+
+
+# ------------------------------------------------------------------------------------------------
+# run-time oracles of the helper contracts (real zarr group in a scratch directory)
+# ------------------------------------------------------------------------------------------------
+
+
+def _real_group():
+    import zarr
+    from zarr.storage import LocalStore
+
+    return zarr.group(store=LocalStore(_tmpdir()), overwrite=True)
+
+
+def conc_dispatch(ev, part=(0, 1)):
+    i = ev("value_kind")
+    cases = sub(DISPATCH_CASES, part)
+    return dict(position="attr", kinds=[cases[i]]) if isinstance(i, int) and 0 <= i < len(cases) else None
+
+
+for _i, _c in enumerate(C_DISPATCH):
+    _c.concretize, _c.rt, _c.rt_family = functools.partial(conc_dispatch, part=(_i, N_DISPATCH)), rt_case, None
+
+
+def _pick_conc(name, cases):
+    def conc(ev):
+        i = ev(name)
+        return dict(case=cases[i]) if isinstance(i, int) and 0 <= i < len(cases) else None
+    return conc
+
+
+def rt_conv(inp):
+    import pathlib
+
+    case = inp["case"]
+    kind = case.split("+")[0]
+    val = {"str": "~/a b/c.txt", "int": 3, "none": None, "float": 0.5, "bool": True, "list": ["x"], "dict": {"k": 1}}[kind]
+    g = _real_group()
+    g.attrs["key"] = val
+    g.attrs["zz_other"] = "p"
+    if case.endswith("+flag"):
+        g.attrs["key.is_path"] = True
+    if case.endswith("+flag=False"):
+        g.attrs["key.is_path"] = False
+    if case.endswith("flag-of-another-key"):
+        g.attrs["zz_other.is_path"] = True
+    before = dict(g.attrs)
+    try:
+        r = AutoSerialize._convert_string_to_path_if_needed(val, g, "key")
+    except Exception as e:
+        return dict(violated=True, observed=f"raised {type(e).__name__}: {e}", expected="no exception")
+    want = pathlib.Path(val) if case == "str+flag" else val
+    bad = type(r) is not type(want) or r != want or dict(g.attrs) != before
+    return dict(violated=bad, observed=f"{val!r} -> {r!r}; attrs {'changed' if dict(g.attrs) != before else 'unchanged'}", expected=f"{want!r}, group not written")
+
+
+def rt_get(inp, which="_get_group"):
+    case = inp["case"]
+    g = _real_group()
+    g.require_group("zz_other")
+    if case == "group":
+        g.require_group("key")
+    elif case == "array":
+        g.create_array(name="key", shape=(2,), dtype="uint8")
+    try:
+        r = getattr(AutoSerialize, which)(g, "key")
+        obs = f"returned {type(r).__name__} at {getattr(r, 'path', '?')!r}"
+        bad = case == "absent" or getattr(r, "path", None) != "key"
+    except KeyError:
+        obs, bad = "KeyError", case != "absent"
+    except Exception as e:
+        obs, bad = f"raised {type(e).__name__}", True
+    return dict(violated=bad, observed=obs, expected="the node stored under key; KeyError iff absent")
+
+
+def rt_fix(inp):
+    case = inp["case"]
+    if case in FIX_TREE_CASES:
+        m = _module_tree(case)
+        before = _tree_state(m)
+        try:
+            r = AutoSerialize._fix_torch_module_sets(m)
+        except Exception as e:
+            return dict(violated=True, observed=f"raised {type(e).__name__}: {e}", expected="returns its argument")
+        now = _tree_state(m)
+        bad = r is not m or now != before or not all(isinstance(x._non_persistent_buffers_set, set) for x in m.modules())
+        return dict(violated=bad, observed=f"non-persistent sets {now[0]}, state_dict keys {now[1]}", expected=f"non-persistent sets {before[0]}, state_dict keys {before[1]}")
+    if case.startswith("obj:module+"):
+        m = NNInner(c=1)
+        coll = ["b1", "b2"] if "list-valued" in case else {"b1", "b2"}
+        m.__dict__["_non_persistent_buffers_set"] = coll
+    else:
+        m = concrete(case)
+    before = dict(vars(m)) if hasattr(m, "__dict__") else None
+    try:
+        r = AutoSerialize._fix_torch_module_sets(m)
+    except Exception as e:
+        return dict(violated=True, observed=f"raised {type(e).__name__}: {e}", expected="returns its argument")
+    probs = []
+    if r is not m:
+        probs.append("result is not the argument")
+    if case.startswith("obj:module+"):
+        now = m.__dict__.get("_non_persistent_buffers_set")
+        if not isinstance(now, set) or now != {"b1", "b2"}:
+            probs.append(f"_non_persistent_buffers_set = {now!r}")
+        if isinstance(coll, set) and now is not coll:
+            probs.append("a set-valued attribute was replaced")
+        if {k: v for k, v in vars(m).items() if k != "_non_persistent_buffers_set"} != {k: v for k, v in before.items() if k != "_non_persistent_buffers_set"}:
+            probs.append("other attributes changed")
+    elif before is not None and set(vars(m)) != set(before):
+        probs.append("attribute set changed")
+    return dict(violated=bool(probs), observed="; ".join(probs) or "ok", expected="returns its argument; only a non-set _non_persistent_buffers_set of a module becomes a set of the same elements")
+
+
+def rt_rng(inp):
+    import numpy as np
+
+    case = inp["case"]
+    g = _real_group()
+    g.attrs["_numpy_rng"] = True
+    if case != "<missing>":
+        g.attrs["_bit_generator_type"] = case
+    want = case if case in ("PCG64", "MT19937", "Philox", "SFC64") else "PCG64"
+    try:
+        r = AutoSerialize._restore_numpy_rng(g)
+    except Exception as e:
+        return dict(violated=True, observed=f"raised {type(e).__name__}: {e}", expected=f"Generator({want})")
+    got = type(getattr(r, "bit_generator", None)).__name__
+    return dict(violated=not isinstance(r, np.random.Generator) or got != want, observed=f"{type(r).__name__}({got})", expected=f"Generator({want})")
+
+
+C_CONV.concretize, C_CONV.rt = _pick_conc("case", CONV_CASES), rt_conv
+C_GETGROUP.concretize, C_GETGROUP.rt = _pick_conc("case", GET_CASES), functools.partial(rt_get, which="_get_group")
+C_GETARRAY.concretize, C_GETARRAY.rt = _pick_conc("case", GET_CASES), functools.partial(rt_get, which="_get_array")
+C_FIXSETS.concretize, C_FIXSETS.rt = _pick_conc("case", FIX_CASES), rt_fix
+C_RNG.concretize, C_RNG.rt = _pick_conc("case", RNG_CASES), rt_rng
+for _c in C_HELPERS:
+    _c.canary_path_limit = 16
+    _c.inline = set(INLINED)
